@@ -147,6 +147,12 @@ def run(ctx, rep):
     c09.classification_rule(f, rep, 'C01.7')
     from . import c08
     c08.grant_rule(f, P, rep, 'C01.8')
+    # frame condition: a write that replaces a compressed cluster releases exactly the host clusters that extent touches - one
+    # cluster too many is a neighbour's cluster, which the allocator then hands out, zeroes and overwrites
+    from . import span
+    rep.rule('C01.9', 'the host-cluster span released for a replaced compressed extent is exactly the clusters it touches (no neighbouring cluster is released)')
+    span.allocation_rule(f, rep, 'C01.9')
+    span.release_rule(f, rep, 'C01.9')
 
 
 def read_handlers(f):
